@@ -38,6 +38,8 @@ func runC10(c *Ctx) {
 	checkPendingReads(c, "R10e")
 	c.Rule("R10f", ruleTextPartialAnywhere, 1)
 	checkPartialAnywhere(c, "R10f")
+	c.Rule("R10i", ruleTextNotFoundOnly, 2)
+	checkNotFoundOnly(c, "R10i")
 	c.Rule("R10g", ruleTextPendingLowerBound, 3)
 	checkPendingLowerBound(c, "R10g")
 	c.Rule("R10h", "index provenance in the migrate package (same rule as C11/R11f): an index obtained by searching slice B is used to index or slice B only, never a different slice", 6)
